@@ -18,7 +18,7 @@ func init() {
 		ID:          "C04",
 		Level:       "other",
 		Run:         runC04,
-		Explanation: "Decides that the mechanisms of the hazard discipline are wired as it requires, on every variant: R04.1 the hazard classifiers equal the reference (RAW = reads∩pending writes, WAW = writes∩pending writes, WAR = writes∩pending reads, zero register skipped); R04.2 the control unit's dispatch predicates equal the reference (conflict with held-back instructions; forwarding only for exactly one RAW hazard with a producer dispatched in the previous cycle; renaming only for exactly one non-RAW hazard) and every dispatch is guarded by 'no hazard', the forwarding predicate or the renaming predicate; R04.3 the scoreboard is raised at dispatch and released after the architectural write, in the same block; R04.4 forwarding wiring (one channel of capacity 1 shared by producer and consumer, the forwarded register is the hazard's, the producer sends its result exactly when it has a forwarder, the consumer receives before it runs); R04.5 register read precedence; R04.6 declared read/write sets are exact; R04.7 the scoreboard touches only the scoreboard; R04.8 where renaming can put two writers of a register in flight, the forwarding predicate equals the renaming reference (forward only from the single writer dispatched in the previous cycle when no writer was dispatched in the current cycle); R04.12 write-after-write under out-of-order completion: the uncommitted writes of a register are kept ordered by sequence id, a value is committed only over an older one, and a read prefers a committed younger value (reference model); R04.9 all register-reading calls of one variant pass the same sequence tag; R04.11 every path through the control unit's step rotates the previous-cycle set the forwarding predicate relies on; R04.10 wiring a forward writes only the producer's Forwarder, so an instruction that is the consumer of one forward and the producer of the next keeps the register it is waiting for. Does not decide that the discipline is sufficient under every dispatch interleaving (a schedule/value question).",
+		Explanation: "Decides that the mechanisms of the hazard discipline are wired as it requires, on every variant: R04.1 the hazard classifiers equal the reference (RAW = reads∩pending writes, WAW = writes∩pending writes, WAR = writes∩pending reads, zero register skipped); R04.2 the control unit's dispatch predicates equal the reference (conflict with held-back instructions; forwarding only for exactly one RAW hazard with a producer dispatched in the previous cycle; renaming only for exactly one non-RAW hazard) and every dispatch is guarded by 'no hazard', the forwarding predicate or the renaming predicate; R04.3 the scoreboard is raised at dispatch and released after the architectural write, in the same block; R04.4 forwarding wiring (one channel of capacity 1 shared by producer and consumer, the forwarded register is the hazard's, the producer sends its result exactly when it has a forwarder, the consumer receives before it runs); R04.5 register read precedence; R04.6 declared read/write sets are exact; R04.7 the scoreboard touches only the scoreboard; R04.8 where renaming can put two writers of a register in flight, the forwarding predicate equals the renaming reference (forward only from the single writer dispatched in the previous cycle when no writer was dispatched in the current cycle); R04.14 a variant that renames registers on write-after-read bounds every register read by the reader's own sequence tag; R04.13 Forward(f) of every instruction stores f in the instruction itself (pointer receiver, the field every register read consults); R04.12 write-after-write under out-of-order completion: the uncommitted writes of a register are kept ordered by sequence id, a value is committed only over an older one, and a read prefers a committed younger value (reference model); R04.9 all register-reading calls of one variant pass the same sequence tag; R04.11 every path through the control unit's step rotates the previous-cycle set the forwarding predicate relies on; R04.10 wiring a forward writes only the producer's Forwarder, so an instruction that is the consumer of one forward and the producer of the next keeps the register it is waiting for. Does not decide that the discipline is sufficient under every dispatch interleaving (a schedule/value question).",
 		Assumptions: []string{"dispatch interleavings beyond the structural rules are not explored"},
 		Trusted:     []string{"go/types", "term engine", "reference models spec/risc_state.go.txt, spec/cu.go.txt"},
 	})
@@ -86,6 +86,9 @@ func runC04(r *Run) {
 		conform(r, "R04.7", "risc", "Context", m, "risc_state", nil)
 	}
 	conform(r, "R04.5", "risc", "", "registerRead", "risc_state", nil)
+	r.floor("R04.14", 4)
+	r.floor("R04.13", 45)
+	ruleForwardSetters(r, "R04.13")
 	// R04.12: with out-of-order completion two writes to one register leave the YOUNGER one
 	r.floor("R04.12", 4)
 	conform(r, "R04.12", "risc", "Context", "TransactionRATWrite", "risc_state", nil)
@@ -530,6 +533,17 @@ func ruleSequenceTagAgreement(r *Run, v *variant) {
 	if len(kinds) == 0 {
 		return
 	}
+	// R04.14: with renaming a younger writer of a register may complete before an older reader
+	// executes (WAR is not a dispatch hazard any more): the reader must bound its reads by its own tag
+	renames := false
+	for _, f := range v.fields {
+		if f.isUnit && hasDeclMethod(f.unitT, "shouldUseRenaming") != nil {
+			renames = true
+		}
+	}
+	if renames {
+		r.check(kinds["own"] > 0 && len(kinds) == 1, "R04.14", v.rel+":tag-bounded-reads", first, "the variant renames registers on write-after-read, so an older instruction may read a register after a younger one has written it: every register-reading call passes the instruction's own sequence tag, not the 'latest value' tag 0 (tags used: %v)", kinds)
+	}
 	r.check(len(kinds) == 1, "R04.9", v.rel+":sequence-tag", first, "all register-reading calls of the execute units pass the same sequence tag %v (an address computed with the newest register value and an execution with the tag-bounded one read different versions of a renamed register)", kinds)
 }
 
@@ -637,4 +651,82 @@ func enclosingBlock(root ast.Node, n ast.Node) *ast.BlockStmt {
 		return true
 	})
 	return best
+}
+
+// ruleForwardSetters (R04.13): Forward(f) of every instruction stores f in the
+// instruction itself — a pointer receiver and an assignment of the parameter to
+// the field that Run hands to registerRead. With a value receiver the forwarded
+// operand is written to a copy and the consumer silently reads the stale register.
+func ruleForwardSetters(r *Run, rule string) {
+	w := r.W
+	a := analyseISA(w)
+	p := w.Pkg("risc")
+	if p == nil {
+		r.undecided(rule, "risc", token.NoPos, "package risc not loaded")
+		return
+	}
+	info := p.TypesInfo
+	for _, op := range a.ops {
+		fd, _ := w.Method("risc", op.typeName, "Forward")
+		key := "risc.(*" + op.typeName + ").Forward"
+		if fd == nil || fd.Body == nil || fd.Recv == nil || len(fd.Recv.List) != 1 {
+			r.undecided(rule, key, token.NoPos, "method Forward not found")
+			continue
+		}
+		_, ptr := fd.Recv.List[0].Type.(*ast.StarExpr)
+		var recvObj, paramObj types.Object
+		if len(fd.Recv.List[0].Names) == 1 {
+			recvObj = info.Defs[fd.Recv.List[0].Names[0]]
+		}
+		if fd.Type.Params != nil && len(fd.Type.Params.List) == 1 && len(fd.Type.Params.List[0].Names) == 1 {
+			paramObj = info.Defs[fd.Type.Params.List[0].Names[0]]
+		}
+		// the field assigned from the parameter
+		var field types.Object
+		for _, st := range fd.Body.List {
+			as, ok := st.(*ast.AssignStmt)
+			if !ok || len(as.Lhs) != 1 || len(as.Rhs) != 1 {
+				continue
+			}
+			rid, ok := ast.Unparen(as.Rhs[0]).(*ast.Ident)
+			if !ok || paramObj == nil || info.Uses[rid] != paramObj {
+				continue
+			}
+			if sel, ok := ast.Unparen(as.Lhs[0]).(*ast.SelectorExpr); ok {
+				if xid, ok := ast.Unparen(sel.X).(*ast.Ident); ok && recvObj != nil && info.Uses[xid] == recvObj {
+					if s := info.Selections[sel]; s != nil && s.Kind() == types.FieldVal {
+						field = s.Obj()
+					}
+				}
+			}
+		}
+		// the field Run passes to registerRead (if Run reads registers at all)
+		readsVia := map[types.Object]bool{}
+		nReads := 0
+		for _, m := range []string{"Run", "MemoryRead", "MemoryWrite"} {
+			mfd, _ := w.Method("risc", op.typeName, m)
+			if mfd == nil || mfd.Body == nil {
+				continue
+			}
+			ast.Inspect(mfd.Body, func(n ast.Node) bool {
+				call, ok := n.(*ast.CallExpr)
+				if !ok || len(call.Args) < 2 {
+					return true
+				}
+				if fn, ok := typeutil.Callee(info, call).(*types.Func); !ok || fn.Name() != "registerRead" {
+					return true
+				}
+				nReads++
+				if sel, ok := ast.Unparen(call.Args[1]).(*ast.SelectorExpr); ok {
+					if s := info.Selections[sel]; s != nil {
+						readsVia[s.Obj()] = true
+					}
+				}
+				return true
+			})
+		}
+		// an instruction that reads no register has nothing to receive
+		good := nReads == 0 || (ptr && field != nil && len(readsVia) == 1 && readsVia[field])
+		r.check(good, rule, key, fd.Pos(), "Forward stores its argument in the instruction (pointer receiver: %v; assigned field: %v) and that field is the one every register read of the instruction consults (%d reads)", ptr, field != nil, nReads)
+	}
 }
